@@ -93,10 +93,77 @@ ItemSeqs == { q \in UNION { [1..n -> Items] : n \in 0..MaxItems } :
                 Cardinality({ j \in DOMAIN q : IsGro(q[j]) }) <= 1 }
 AncInputs == UNION { { [kind |-> "anc", items |-> q, cut |-> c] : c \in 0..Total(q) } : q \in ItemSeqs }
 
+-----------------------------------------------------------------------------
+(* The receive LOOP (StdConn.ListenOut).  The batch slots -- receive buffer, ancillary buffer and the       *)
+(* msg_controllen field of each -- are reused by every recvmmsg round, so a slot carries state from round   *)
+(* to round:  slot = [buf  |-> the control messages lying in its ancillary buffer (<<>> = zeroed slab),     *)
+(*                    clen |-> its msg_controllen field].                                                   *)
+(* Kernel interface (recvmmsg, udp_cmsg_recv / put_cmsg): a round fills the slots 1..k in order.  For a     *)
+(* coalesced datagram it writes the UDP_GRO message into the slot's buffer and msg_controllen = the space   *)
+(* used -- provided the msg_controllen it FOUND there leaves room for the message (else MSG_CTRUNC, nothing *)
+(* written); for a datagram without coalescing size it writes msg_controllen = 0 AND LEAVES THE BUFFER AS   *)
+(* IT IS.  Slots beyond k are not touched.                                                                  *)
+(* Reference: what is delivered for a slot depends only on the datagram of THIS round: IsSplit(pieces, len, *)
+(* size the kernel coalesced with in this round) -- the statement, per received datagram.                   *)
+(* Machine: Round(slots, round, order).  order = "arm-receive-parse" is the code (every slot gets its full  *)
+(* msg_controllen back BEFORE recvmmsg, each filled slot is parsed with what the kernel wrote back).  The   *)
+(* other orders are kept only to show that the link below separates them (LoopOrderMatters): the loop order *)
+(* is part of the specification, not just the two pure functions.                                           *)
+CmsgFull == Space(4)
+GroItem(v) == [lvl |-> "udp", typ |-> "gro", dlen |-> 4, val |-> v]
+FreshSlots(n) == [i \in 1..n |-> [buf |-> <<>>, clen |-> CmsgFull]]
+Arm(slots) == [i \in DOMAIN slots |-> [slots[i] EXCEPT !.clen = CmsgFull]]
+Kernel(slots, round) ==
+    [i \in DOMAIN slots |->
+        IF i > Len(round) THEN slots[i]
+        ELSE IF round[i].gro > 0 /\ slots[i].clen >= CmsgHdr + 4
+             THEN [buf |-> <<GroItem(round[i].gro)>>, clen |-> CmsgFull]
+             ELSE [buf |-> slots[i].buf, clen |-> 0]]
+Orders == {"arm-receive-parse", "receive-arm-parse", "never-arm"}
+Round(slots, round, order) ==
+    LET armed  == IF order = "arm-receive-parse" THEN Arm(slots) ELSE slots
+        filled == Kernel(armed, round)
+        seen   == IF order = "receive-arm-parse"
+                  THEN [i \in DOMAIN filled |-> IF i <= Len(round) THEN [filled[i] EXCEPT !.clen = CmsgFull] ELSE filled[i]]
+                  ELSE filled
+    IN [slots |-> seen,
+        out   |-> [i \in 1..Len(round) |-> Split(round[i].len, SizeFromAncillary(seen[i].buf, seen[i].clen))]]
+RECURSIVE RunLoop(_, _, _)
+RunLoop(slots, rounds, order) ==
+    IF rounds = <<>> THEN <<>>
+    ELSE LET r == Round(slots, Head(rounds), order) IN <<r.out>> \o RunLoop(r.slots, Tail(rounds), order)
+
+\* the lattice: 1-2 slots (a round fills slot 1 or slots 1..2), histories of 1..3 rounds, each datagram coalesced
+\* (size S, several segments, tail full or short) or plain (shorter than / equal to / just above / well above an S)
+LoopDgrams == {[gro |-> 300, len |-> 900], [gro |-> 500, len |-> 1200], [gro |-> 0, len |-> 200], [gro |-> 0, len |-> 1000]}
+              \cup (IF Thorough THEN {[gro |-> 0, len |-> 300], [gro |-> 0, len |-> 301]} ELSE {})
+LoopSlots == 2
+LoopRounds == UNION { [1..k -> LoopDgrams] : k \in 1..LoopSlots }
+LoopMaxRounds == 3
+\* size left in slot i by the rounds before round r (0 = none)
+RECURSIVE StaleSize(_, _, _)
+StaleSize(rounds, r, i) ==
+    IF r <= 1 THEN 0
+    ELSE IF Len(rounds[r - 1]) >= i /\ rounds[r - 1][i].gro > 0 THEN rounds[r - 1][i].gro
+         ELSE StaleSize(rounds, r - 1, i)
+\* a datagram without size, longer than the size an earlier round left in its slot
+StaleMatters(rounds) == \E r \in DOMAIN rounds : \E i \in DOMAIN rounds[r] :
+    rounds[r][i].gro = 0 /\ StaleSize(rounds, r, i) > 0 /\ StaleSize(rounds, r, i) < rounds[r][i].len
+\* a coalesced datagram in a slot whose previous datagram came without size
+RECURSIVE PrevPlain(_, _, _)
+PrevPlain(rounds, r, i) ==
+    IF r <= 1 THEN FALSE
+    ELSE IF Len(rounds[r - 1]) >= i THEN rounds[r - 1][i].gro = 0 ELSE PrevPlain(rounds, r - 1, i)
+UnarmedMatters(rounds) == \E r \in DOMAIN rounds : \E i \in DOMAIN rounds[r] :
+    rounds[r][i].gro > 0 /\ PrevPlain(rounds, r, i)
+
 VARIABLES in, exp, ok
 vars == <<in, exp, ok>>
-Init == /\ in \in SplitInputs \cup AncInputs
-        /\ exp = IF in.kind = "split" THEN Split(in.len, in.seg) ELSE <<SizeFromAncillary(in.items, in.cut)>>
+Init == /\ \/ in \in SplitInputs \cup AncInputs
+           \/ \E n \in 1..LoopMaxRounds : \E h \in [1..n -> LoopRounds] : in = [kind |-> "loop", slots |-> LoopSlots, rounds |-> h]
+        /\ exp = CASE in.kind = "split" -> Split(in.len, in.seg)
+                  [] in.kind = "anc" -> <<SizeFromAncillary(in.items, in.cut)>>
+                  [] in.kind = "loop" -> RunLoop(FreshSlots(in.slots), in.rounds, "arm-receive-parse")
         /\ ok = IF in.kind = "split" THEN {exp} \cup Acceptable(in.len, in.seg) ELSE {exp}
 Next == UNCHANGED vars
 Spec == Init /\ [][Next]_vars
@@ -120,4 +187,14 @@ MissingIsWhole == in.kind = "anc" =>
     /\ \A n \in {0, 1, 7, 1200} : exp = <<0>> => Split(n, exp[1]) = <<n>>
     /\ (in.cut = Total(in.items) /\ \E j \in DOMAIN in.items : IsGro(in.items[j])) =>
           \E j \in DOMAIN in.items : IsGro(in.items[j]) /\ exp = <<in.items[j].val>>
+\* the loop: every datagram of every round is delivered as the statement says for the size the kernel gave in
+\* THAT round, whatever earlier rounds left in the slot
+LoopFresh == in.kind = "loop" =>
+    \A r \in DOMAIN in.rounds : \A i \in DOMAIN in.rounds[r] :
+        IsSplit(exp[r][i], in.rounds[r][i].len, in.rounds[r][i].gro)
+\* ... and the link separates the loop orders: re-arming between recvmmsg and the parse shows exactly on histories
+\* with a stale size that matters, never re-arming exactly on histories with a coalesced datagram after a plain one
+LoopOrderMatters == in.kind = "loop" =>
+    /\ (RunLoop(FreshSlots(in.slots), in.rounds, "receive-arm-parse") # exp) <=> StaleMatters(in.rounds)
+    /\ (RunLoop(FreshSlots(in.slots), in.rounds, "never-arm") # exp) <=> UnarmedMatters(in.rounds)
 =============================================================================
